@@ -96,7 +96,8 @@ func readContent(rf io.ReaderFrom, name string) (int64, error) {
 // quoteString escape special characters in a given string
 func (app *App) quoteString(raw string) string {
 	bb := bytebufferpool.Get()
-	quoted := app.getString(fasthttp.AppendQuotedArg(bb.B, app.getBytes(raw)))
+	// a copy: the buffer goes back to the pool and is written to by whoever takes it next
+	quoted := string(fasthttp.AppendQuotedArg(bb.B, app.getBytes(raw)))
 	bytebufferpool.Put(bb)
 	return quoted
 }
